@@ -340,6 +340,8 @@ def pl_fault_case(v, shape, lazy, N, max_faults):
 
             eng().assume(z3.AtMost(*[z3.Bool(f"fail{k}") for k in range(12)], max_faults))
         if f:
+            if v.bool("bare"):
+                raise tmpl.Injected()
             raise tmpl.Injected(f"injected@{j}:{tag}")
 
     def colcheck(tag):
